@@ -117,6 +117,9 @@ type Interp struct {
 	journal   []jEntry
 	journalOn bool
 	specDepth int
+	// assumptions made inside the speculative arms being executed (re-added, guarded by the
+	// arm's condition, when the arms are merged)
+	specAssumes []*Term
 
 	// per-path state
 	pc        []*Term
@@ -1050,6 +1053,15 @@ func (in *Interp) doIf(g *Goroutine, fr *Frame, x *ssa.If) {
 	}
 }
 
+// noteAssume records an assumption made while an enclosing speculative arm is running.
+func (in *Interp) noteAssume(c *Term) {
+	if in.specDepth > 0 {
+		n := len(in.specAssumes)
+		in.journal = append(in.journal, jEntry{kind: 3, undo: func() { in.specAssumes = in.specAssumes[:n] }})
+		in.specAssumes = append(in.specAssumes, c)
+	}
+}
+
 func (in *Interp) evalModel(c *Term) bool {
 	return in.tt.Eval(c, in.model, in.modelMemo) == 1
 }
@@ -1202,6 +1214,7 @@ func (in *Interp) tryMerge(g *Goroutine, fr *Frame, x *ssa.If, c *Term) (ok bool
 		ret     Value
 		hasRet  bool
 		prevBlk *ssa.BasicBlock
+		assumes []*Term
 	}
 	B := fr.block
 	depth := len(g.stack)
@@ -1220,9 +1233,14 @@ func (in *Interp) tryMerge(g *Goroutine, fr *Frame, x *ssa.If, c *Term) (ok bool
 	mark := len(in.journal)
 	pcLen := len(in.pc)
 	savedModel, savedMemo := in.model, in.modelMemo
+	inputsLen, savedSymSeq := len(in.inputs), in.symSeq
+	saMark := len(in.specAssumes)
 	var results [2]armResult
 	restore := func() {
 		in.undoTo(mark)
+		in.inputs = in.inputs[:inputsLen]
+		in.symSeq = savedSymSeq
+		in.specAssumes = in.specAssumes[:saMark]
 		g.stack = g.stack[:depth]
 		fr.block = B
 		fr.prev = savedPrev
@@ -1334,6 +1352,7 @@ func (in *Interp) tryMerge(g *Goroutine, fr *Frame, x *ssa.If, c *Term) (ok bool
 		if len(fr.defers) != len(savedDefers) && J != nil {
 			panic(mergeAbort{"defers changed"})
 		}
+		res.assumes = append([]*Term(nil), in.specAssumes[saMark:]...)
 		results[arm] = res
 		restore()
 	}
@@ -1444,6 +1463,16 @@ func (in *Interp) tryMerge(g *Goroutine, fr *Frame, x *ssa.If, c *Term) (ok bool
 	for i, v := range regWrites {
 		in.setReg(fr, i, v)
 	}
+	for arm, list := range [2][]*Term{a.assumes, b.assumes} {
+		guard := in.tt.Not(c)
+		if arm == 1 {
+			guard = c
+		}
+		for _, e := range list {
+			in.noteAssume(in.tt.Or(guard, e))
+			in.addPC(in.tt.Or(guard, e))
+		}
+	}
 	in.stats.Merges++
 	if J == nil {
 		fr.defers = nil
@@ -1551,6 +1580,10 @@ func (in *Interp) freshSymSuffix(w uint8, src, label, suffix string) *Term {
 			return in.tt.Bool(v != 0)
 		}
 		return in.tt.Const(w, v)
+	}
+	if in.specDepth > 0 {
+		// an input drawn inside one arm of a merged branch would not line up with a native replay
+		panic(mergeAbort{why: "fresh input inside a speculative arm"})
 	}
 	in.symSeq++
 	name := fmt.Sprintf("s%d_w%d%s", in.symSeq, w, suffix)
